@@ -94,6 +94,29 @@ class RefEntry(Rule):
         return text
 
 
+class Guards(Rule):
+    """Several RAII guard kinds lowered together, in reverse TEXTUAL order of their declarations (the object declared last is
+    lowered first, so that its destructor text comes out first at every scope exit): the destruction order is that of the lifted
+    text, not of the rule list.  specs = [(decl regex, ctor template or function(match), dtor template)]."""
+
+    def __init__(self, specs):
+        self.specs, self.n = specs, None
+
+    def apply(self, text):
+        from vx.lift import _lower_one_guard
+        for _ in range(64):
+            best = None
+            for (decl, ctor, dtor) in self.specs:
+                for m in re.finditer(decl, text, re.S):
+                    if best is None or m.start() > best[0].start():
+                        best = (m, ctor, dtor)
+            if best is None:
+                return text
+            m, ctor, dtor = best
+            text = _lower_one_guard(text, m, ctor(m) if callable(ctor) else m.expand(ctor), m.expand(dtor))
+        raise LiftError("Guards: lowering does not terminate (a constructor text matches a declaration pattern)")
+
+
 class GuardF(Guard):
     """Guard whose ctor replacement may be a function of the match (vx.lift.Guard expands templates only)."""
 
@@ -154,13 +177,14 @@ EC = [
     Sub(r"\bec = make_success_code\(\);", "ec->value = pika_error_success;", None),
 ]
 # RAII (inner guards first, so that destructors come out in reverse order of construction)
-UNLOCK_GUARD_P = Guard(r"(?:::)?(?:pika::)?detail::unlock_guard\s*<[^;()]*>\s*\w+\s*\(\s*(\w+)\s*\)\s*;", r"ulock_unlock(\1);", r"ulock_lock(\1);", None)
-UNLOCK_GUARD_V = Guard(r"(?:::)?(?:pika::)?detail::unlock_guard\s*<[^;()]*>\s*\w+\s*\(\s*(\w+)\s*\)\s*;", r"ulock_unlock(&\1);", r"ulock_lock(&\1);", None)
-LIST_SCOPE = Guard(r"VX_LIST_SCOPE\((\w+)\);", "", r"slist_dtor(&\1);", None)
-RQE = GuardF(r"\breset_queue_entry\s+(\w+)\s*\(([^;()]*)\)\s*;",
-            lambda m: "struct reset_queue_entry %s; reset_queue_entry_ctor(&%s, %s);" % (
-                m.group(1), m.group(1), ", ".join("&" + a.strip() for a in m.group(2).split(","))),
-            r"reset_queue_entry_dtor(&\1);", None)
+UG = r"(?:::)?(?:pika::)?detail::unlock_guard\s*<[^;()]*>\s*\w+\s*\(\s*(\w+)\s*\)\s*;"
+UNLOCK_GUARD_P = (UG, r"ulock_unlock(\1);", r"ulock_lock(\1);")
+UNLOCK_GUARD_V = (UG, r"ulock_unlock(&\1);", r"ulock_lock(&\1);")
+LIST_SCOPE = (r"VX_LIST_SCOPE\((\w+)\);", "", r"slist_dtor(&\1);")
+RQE = (r"\breset_queue_entry\s+(\w+)\s*\(([^;()]*)\)\s*;",
+       lambda m: "struct reset_queue_entry %s; reset_queue_entry_ctor(&%s, %s);" % (
+           m.group(1), m.group(1), ", ".join("&" + a.strip() for a in m.group(2).split(","))),
+       r"reset_queue_entry_dtor(&\1);")
 QE = Sub(r"\bqueue_entry\s+(\w+)\s*\(([^;]*)\)\s*;", r"struct queue_entry \1; queue_entry_ctor(&\1, \2);", None)
 LOCK_BYVAL = Guard(r"^\{", "{", "ulock_dtor(&lock);", 1)
 
@@ -170,9 +194,9 @@ def cv_rules(lock_by_value, ret="", extra=()):
     rules = list(extra) + [ENUM, ERRC, throws_if(ret)] + blocking(ret) + LIST + AGENT + EC + [owns, QE]
     if lock_by_value:
         rules += [Sub(r"\b(\w+)\.unlock\(\)", r"ulock_unlock(&\1)", None), Sub(r"std::move\(lock\)", "ulock_move(&lock)", None),
-                  UNLOCK_GUARD_V, LIST_SCOPE, LOCK_BYVAL]
+                  Guards([UNLOCK_GUARD_V, LIST_SCOPE]), LOCK_BYVAL]
     else:
-        rules += [UNLOCK_GUARD_P, RQE, LIST_SCOPE]
+        rules += [Guards([UNLOCK_GUARD_P, RQE, LIST_SCOPE])]
     return rules + [Members(["queue_"], optional=["queue_"])]
 
 
@@ -258,6 +282,175 @@ UNITS += [
     Unit("cv.empty", "cv.c", defines=["U_EMPTY"], enforce="empty",
          lifts={"empty": Lift(CVC, r"bool condition_variable::empty\(", rules=cv_rules(False), post=POST)},
          funcs=[CVF + "empty"], min_obligations=5),
+]
+
+# ---------------------------------------------------------------------------------------------------------------
+# unit groups 2 and 3: public pika::condition_variable / condition_variable_any (specs/C07/pub.h, pub.c)
+
+
+class Call0(Call):
+    """Call with n=None but WITHOUT the fixed-point re-scan of vx.lift.Call: needed when the replacement text contains the head
+    again (callee -> same-named C function).  (copied from specs/C19/spec.py)"""
+
+    def __init__(self, head, template, stmt=False):
+        Call.__init__(self, head, template, None, stmt)
+
+    def apply(self, text):
+        self._nested = True
+        return Call.apply(self, text)
+
+
+class LambdaOut(Rule):
+    """`auto f = [&a, &b] { BODY };` -> `struct vx_closure f; f.a = &a; f.b = &b;` (the body is lifted separately, as a function
+    taking the closure)"""
+
+    def __init__(self, n=1):
+        self.n = n
+
+    def apply(self, text):
+        k = 0
+        rx = re.compile(r"\bauto\s+(\w+)\s*=\s*\[([^\]]*)\]\s*(?:\(\s*\)\s*)?\{")
+        while True:
+            m = rx.search(text)
+            if not m:
+                break
+            k += 1
+            cl = match_close(text, m.end() - 1, "{", "}")
+            ms = re.match(r"\s*;", text[cl + 1:])
+            if not ms:
+                raise LiftError("LambdaOut: lambda is not a complete declaration")
+            caps = [c.strip() for c in m.group(2).split(",") if c.strip()]
+            if any(not c.startswith("&") or not re.match(r"&\w+$", c) for c in caps):
+                raise LiftError("LambdaOut: only by-reference captures are supported: %r" % caps)
+            f = m.group(1)
+            rep = "struct vx_closure %s; " % f + " ".join("%s.%s = &%s;" % (f, c[1:], c[1:]) for c in caps)
+            text = text[:m.start()] + rep + text[cl + 1 + ms.end():]
+        self.check(k, "LambdaOut")
+        return text
+
+
+BLK = r"vx_blk\((?:vx_data_\(self\)|\w+)\)"
+EC_BOOL = Sub(r"(\bif \(|!)ec\b(?!\.|->)", r"\1vx_ec_bool(ec)", None)
+
+
+def pub_rules(exc_ret, stop=False):
+    r = [
+        Sub(r"\bPIKA_ASSERT_OWNS_LOCK\((\w+)\);", r"VX_PIKA_ASSERT(user_owns(\1));", None),
+        Sub(r"(?:\[\[maybe_unused\]\]\s*)?util::ignore_all_while_checking \w+;", "", None),
+        ENUM, Sub(r"\bcv_status::(\w+)", r"cv_status_\1", None),
+        Sub(r"(?:pika::)?threads::detail::thread_restart_state const (\w+)", r"int const \1", None),
+        Sub(r"\bdata_->", "vx_blk(vx_data_(self))->", None),
+        Sub(r"\bdata->", "vx_blk(data)->", None),
+        Call(r"(%s)->cond_\.wait" % BLK, "{ dcv_wait(&{h1}->cond_, &{0}, {1}); if (vx_exc) return %s; }" % exc_ret, None, stmt=True),
+        Call(r"(%s)->cond_\.wait_until" % BLK, "dcv_wait_until(&{h1}->cond_, &{0}, {1}, {2})", None),
+        Sub(r"(=\s*dcv_wait_until\([^;]*\);)", r"\1 if (vx_exc) return %s;" % exc_ret, None),
+        Call(r"(%s)->cond_\.(notify_one|notify_all)" % BLK, lambda a, e: "dcv_%s(&%s->cond_, %s, %s)" % (
+            e["h2"], e["h1"], re.sub(r"^std::move\((\w+)\)$", r"ilock_move(&\1)", a[0]), a[1]), None),
+        Sub(r"(?<![\w.>:])pred\(\)", "pred_call()", None),
+        Call0(r"(?<![\w.>:])wait", "{ wait(self, {0}, &vx_throws); if (vx_exc) return %s; }" % exc_ret, stmt=True),
+        Call0(r"(?<![\w.>:_])wait_until", "wait_until(self, {0}, {1}, {2})"),
+        Sub(r"\b(\w+)\.stop_requested\(\)", r"stop_requested(\1)", None),
+        EC_BOOL,
+    ] + EC
+    if stop:
+        r += [LambdaOut(None)]
+    # RAII: all guard kinds lowered together, in reverse textual order of declaration
+    g = [
+        (r"std::lock_guard<std::unique_lock<mutex_type>> (\w+)\((\w+), std::adopt_lock\);", "", r"ilock_unlock(&\2);"),
+        (r"(?:::)?pika::detail::unlock_guard<[^;()]*> (\w+)\((\w+)\);", r"user_unlock(\2);", r"user_lock(\2);"),
+        (r"std::unique_lock<mutex_type> (\w+)\((%s->mtx_)\);" % BLK, r"struct ilock \1 = ilock_make(&\2);", r"ilock_dtor(&\1);"),
+        (r"\bauto (\w+) = data_;", r"struct cvdata *\1 = iptr_copy(vx_data_(self));", r"iptr_release(\1);"),
+    ]
+    if stop:
+        g += [(r"stop_callback<decltype\((\w+)\)> (\w+)\((\w+), std::move\(\1\)\);",
+               r"struct stop_callback \2 = stop_callback_make(\3, \1);", r"stop_callback_dtor(&\2);")]
+    r += [Guards(g)]
+    return r
+
+
+LK = r"(?:std::unique_lock<Mutex>|Lock)& lock"
+TP = r"pika::chrono::steady_time_point const& abs_time"
+L_NOTIFY_ONE = r"void notify_one\(error_code& ec = throws\)"
+L_NOTIFY_ALL = r"void notify_all\(error_code& ec = throws\)"
+L_WAIT = r"void wait\(%s, error_code& ec = throws\)" % LK
+L_WAIT_PRED = r"void wait\(%s, Predicate pred, error_code&" % LK
+L_WAIT_UNTIL = r"cv_status wait_until\(\s*%s,\s*%s,\s*error_code& ec = throws\)" % (LK, TP)
+L_WAIT_UNTIL_PRED = r"wait_until\(%s,\s*%s,\s*Predicate pred,\s*error_code& ec = throws\)" % (LK, TP)
+
+LOOP_PRED = """
+__CPROVER_assigns(PUB_GHOST)
+__CPROVER_loop_invariant(self == vx_self && self->data_ == g_blk && lock == g_user && g_user->held && !g_blk->mtx_.held && !g_il_owns && !g_self_dead && !g_may_die)
+__CPROVER_loop_invariant(g_blk->count_ >= 1 && g_blk->count_ < VX_BIG && vx_exc == 0 && !g_cb_registered && g_pred_calls >= 0 && g_pred_calls <= 2)
+__CPROVER_loop_invariant(g_dwaits >= 0 && g_dwaits <= 2 && (g_dwaits == 0 || !g_last_timed || g_last_wake != thread_restart_state_timeout))
+"""
+
+
+def pub_units(idx, cls):
+    P = "pub.%s." % ("cv" if idx == 0 else "cv_any")
+    F = PUB + ": pika::" + cls + "::"
+
+    def L(pat, exc_ret="", loops=None):
+        return Lift(PUB, pat, which=idx, expect=2, rules=pub_rules(exc_ret), post=POST, loops=loops)
+
+    return [
+        Unit(P + "notify_one", "pub.c", defines=["U_NOTIFY_ONE"], enforce="notify_one", lifts={"body": L(L_NOTIFY_ONE)},
+             funcs=[F + "notify_one"], min_obligations=10),
+        Unit(P + "notify_all", "pub.c", defines=["U_NOTIFY_ALL"], enforce="notify_all", lifts={"body": L(L_NOTIFY_ALL)},
+             funcs=[F + "notify_all"], min_obligations=10),
+        Unit(P + "wait", "pub.c", defines=["U_WAIT"], enforce="wait", lifts={"wait_body": L(L_WAIT)},
+             funcs=[F + "wait(lock, ec)"], min_obligations=30),
+        Unit(P + "wait_pred", "pub.c", defines=["U_WAIT_PRED", "PRED_FORMS"], enforce="wait_pred",
+             lifts={"wait_body": L(L_WAIT), "body": L(L_WAIT_PRED, loops={1: LOOP_PRED, "count": 1})},
+             funcs=[F + "wait(lock, pred, ec)"], min_obligations=40),
+        Unit(P + "wait_until", "pub.c", defines=["U_WAIT_UNTIL"], enforce="wait_until", lifts={"wait_until_body": L(L_WAIT_UNTIL, "VX_EXC_RET")},
+             funcs=[F + "wait_until(lock, abs_time, ec)"], min_obligations=30),
+        Unit(P + "wait_until_pred", "pub.c", defines=["U_WAIT_UNTIL_PRED", "PRED_FORMS", "NO_EXC"], enforce="wait_until_pred",
+             lifts={"wait_until_body": L(L_WAIT_UNTIL, "VX_EXC_RET"), "body": L(L_WAIT_UNTIL_PRED, loops={1: LOOP_PRED, "count": 1})},
+             funcs=[F + "wait_until(lock, abs_time, pred, ec)"], min_obligations=40),
+    ]
+
+
+UNITS += pub_units(0, "condition_variable") + pub_units(1, "condition_variable_any")
+
+# the same timed predicate form when the caller re-uses an error_code that still holds an earlier error
+for (idx, cls) in [(0, "condition_variable"), (1, "condition_variable_any")]:
+    u = [x for x in pub_units(idx, cls) if x.name.endswith("wait_until_pred")][0]
+    UNITS.append(Unit(u.name + ".reused_ec", "pub.c", defines=u.defines + ["U_REUSED_EC"], enforce=u.enforce, lifts=u.lifts,
+                      funcs=[u.funcs[0] + " (error_code re-used by the caller)"], min_obligations=40))
+
+# ---- unit group 3: stop-token forms of condition_variable_any
+L_STOP_WAIT = r"bool wait\(Lock& lock, stop_token stoken, Predicate pred, error_code& ec = throws\)"
+L_STOP_WAIT_UNTIL = r"wait_until\(Lock& lock, stop_token stoken,\s*%s,\s*Predicate pred,\s*error_code& ec = throws\)" % TP
+L_LAMBDA = r"auto f = \[&data, &ec\]"
+LOOP_STOP = """
+__CPROVER_assigns(PUB_GHOST)
+__CPROVER_loop_invariant(self == vx_self && lock == g_user && data == g_blk && g_user->held && !g_blk->mtx_.held && !g_il_owns && !g_self_dead && !g_may_die)
+__CPROVER_loop_invariant(g_blk->count_ >= 1 && g_blk->count_ <= VX_BIG && vx_exc == 0 && g_cb_registered && !g_stop_seen && g_pred_calls >= 0 && g_pred_calls <= 2)
+__CPROVER_loop_invariant(g_dwaits >= 0 && g_dwaits <= 2 && (g_dwaits == 0 || !g_last_timed || g_last_wake != thread_restart_state_timeout))
+"""
+CLOSURE = [Sub(r"\bdata\b", "(*clo->data)", None), Sub(r"\bec\b", "(*clo->ec)", None)]
+ANY = PUB + ": pika::condition_variable_any::"
+
+
+def stop_lifts(which, body_pat):
+    return {"lambda": Lift(PUB, L_LAMBDA, which=which, expect=2, rules=pub_rules(""), post=POST + CLOSURE),
+            "body": Lift(PUB, body_pat, rules=pub_rules("false", stop=True), post=POST, loops={1: LOOP_STOP, "count": 1})}
+
+
+UNITS += [
+    Unit("pub.cv_any.stop_callback", "pub.c", defines=["U_STOP_CB"], enforce="stop_cb_body",
+         lifts={"lambda": Lift(PUB, L_LAMBDA, which=0, expect=2, rules=pub_rules(""), post=POST + CLOSURE)},
+         funcs=[ANY + "wait(lock, stoken, pred, ec): the stop callback lambda [&data, &ec]"], min_obligations=10),
+    Unit("pub.cv_any.stop_callback.timed", "pub.c", defines=["U_STOP_CB"], enforce="stop_cb_body",
+         lifts={"lambda": Lift(PUB, L_LAMBDA, which=1, expect=2, rules=pub_rules(""), post=POST + CLOSURE)},
+         funcs=[ANY + "wait_until(lock, stoken, abs_time, pred, ec): the stop callback lambda [&data, &ec]"], min_obligations=10),
+    Unit("pub.cv_any.stop_wait", "pub.c", defines=["U_STOP_WAIT", "STOP_FORMS", "PRED_FORMS"], enforce="stop_wait",
+         lifts=stop_lifts(0, L_STOP_WAIT), funcs=[ANY + "wait(lock, stoken, pred, ec)"], min_obligations=60),
+    Unit("pub.cv_any.stop_wait_until", "pub.c", defines=["U_STOP_WAIT_UNTIL", "STOP_FORMS", "PRED_FORMS"], enforce="stop_wait_until",
+         lifts=stop_lifts(1, L_STOP_WAIT_UNTIL), funcs=[ANY + "wait_until(lock, stoken, abs_time, pred, ec)"], min_obligations=60),
+    Unit("pub.cv_any.stop_wait_until.reused_ec", "pub.c", defines=["U_STOP_WAIT_UNTIL", "STOP_FORMS", "PRED_FORMS", "U_REUSED_EC"],
+         enforce="stop_wait_until", lifts=stop_lifts(1, L_STOP_WAIT_UNTIL),
+         funcs=[ANY + "wait_until(lock, stoken, abs_time, pred, ec) (error_code re-used by the caller)"], min_obligations=60),
 ]
 
 META = {
